@@ -352,9 +352,14 @@ func (w *wInterp) call(c *ast.CallExpr) wv {
 		}
 	}
 	switch name {
-	case "len":
-		if s, ok := w.expr(c.Args[0]).([]wv); ok {
+	case "len", "cap":
+		// the interpreter's slices have no spare capacity: cap is len, and a nil slice has neither
+		v := w.expr(c.Args[0])
+		if s, ok := v.([]wv); ok {
 			return int64(len(s))
+		}
+		if v == nil {
+			return int64(0)
 		}
 		return w.bad("len of non-slice")
 	case "make":
@@ -1059,11 +1064,13 @@ func c05padding(p *load.Program, run *report.Run, pkg *packages.Package, fds map
 	for side, fd := range fds {
 		key := "compiler/ssa.Program." + side + "/operand-padding"
 		var ifs *ast.IfStmt
+		var rng *ast.RangeStmt
 		ast.Inspect(fd.Body, func(n ast.Node) bool {
 			r, ok := n.(*ast.RangeStmt)
 			if !ok || cx(r.X) != "instr.In" || ifs != nil {
 				return true
 			}
+			rng = r
 			for _, st := range r.Body.List {
 				if i, ok := st.(*ast.IfStmt); ok {
 					if be, ok := i.Cond.(*ast.BinaryExpr); ok && (be.Op == token.NEQ || be.Op == token.EQL) {
@@ -1080,6 +1087,39 @@ func c05padding(p *load.Program, run *report.Run, pkg *packages.Package, fds map
 			continue
 		}
 		lenArg := cx(ifs.Cond.(*ast.BinaryExpr).X.(*ast.CallExpr).Args[0])
+		// slices declared at function level (`var a, b [][]circuit.Wire`) that the block mentions
+		var freeLists []string
+		for _, st := range fd.Body.List {
+			ds, ok := st.(*ast.DeclStmt)
+			if !ok {
+				continue
+			}
+			gd, ok := ds.Decl.(*ast.GenDecl)
+			if !ok {
+				continue
+			}
+			for _, sp := range gd.Specs {
+				vs, ok := sp.(*ast.ValueSpec)
+				if !ok || len(vs.Values) != 0 {
+					continue
+				}
+				if _, isSlice := pkg.TypesInfo.TypeOf(vs.Type).Underlying().(*types.Slice); !isSlice {
+					continue
+				}
+				for _, nm := range vs.Names {
+					used := false
+					ast.Inspect(ifs, func(x ast.Node) bool {
+						if id, ok := x.(*ast.Ident); ok && id.Name == nm.Name {
+							used = true
+						}
+						return !used
+					})
+					if used && nm.Name != "wires" {
+						freeLists = append(freeLists, nm.Name)
+					}
+				}
+			}
+		}
 		bad := ""
 		cells := 0
 		for n := 0; n <= 4 && bad == ""; n++ {
@@ -1099,6 +1139,16 @@ func c05padding(p *load.Program, run *report.Run, pkg *packages.Package, fds map
 					w.set("wires", []wv{}, true)
 					w.set("zero", "ZERO", true)
 					w.set("err", nil, true)
+					// the operand's position and function-level scratch lists the block may use (empty at an arbitrary
+					// instruction: what they hold is overwritten before it is read, or the result shows UNSET)
+					if rng != nil {
+						if k, ok := rng.Key.(*ast.Ident); ok && k.Name != "_" {
+							w.set(k.Name, int64(0), true)
+						}
+					}
+					for _, name := range freeLists {
+						w.set(name, []wv{}, true)
+					}
 					o := w.stmt(ifs)
 					want := make([]wv, bits)
 					for b := range want {
